@@ -239,6 +239,10 @@ def evaluate(c):
             tg, tf = gg[..., 2], gf[..., 2]
             msk = tg > tg.max() - 30
             dG = float(np.max(np.abs(tg[msk] - tf[msk] - 3.0103)))
+            # the same comparison with a power level requested for the field strengths (dBi does not depend on it)
+            _, _, gg = obs.far(g, zen, azi, pwr=100.0)
+            _, _, gf = obs.far(fr, zen, azi, pwr=100.0)
+            dG = max(dG, float(np.max(np.abs(gg[..., 2][msk] - gf[..., 2][msk] - 3.0103))))
         else:
             dG = 0.0
             nogain += 1
